@@ -63,6 +63,12 @@ def main():
     ap.add_argument('--jobs', type=int, default=16)
     ap.add_argument('--file')
     args = ap.parse_args()
+    # work on a snapshot of the package taken now: /repo may be patched and reverted by other tools while the sweep runs
+    import shutil
+    import tempfile
+    snap = tempfile.mkdtemp(prefix='pwsa-sweep-snapshot-')
+    shutil.copytree(os.path.join(args.repo, 'pyworkers'), os.path.join(snap, 'pyworkers'), ignore=shutil.ignore_patterns('__pycache__'))
+    args.repo = snap
     variants.VARIANTS.clear()
     for rel in variants.ALL_FILES:
         if args.file and rel != args.file:
@@ -75,7 +81,10 @@ def main():
                 continue
             seen.add((qual, nm))
             variants.VARIANTS.append({'kind': 'benign', 'prop': None, 'name': f'sweep:{rel}:{qual}:{nm}', 'edits': [(rel, ('rename_local', qual, nm), nm + '_rn')], 'expect': None})
-    s = selftest.run_selftest(args.repo, None, args.jobs)
+    try:
+        s = selftest.run_selftest(args.repo, None, args.jobs)
+    finally:
+        shutil.rmtree(snap, ignore_errors=True)
     for r in s['results']:
         if r['status'] != 'silent':
             print(f"{r['status'].upper():12} {r['name']}: {r['detail']}")
